@@ -46,5 +46,4 @@ package common
 //@   ensures !(endpoint.PreservePath && endpoint.URL.Path != "" && endpoint.URL.Path != "/") ==> !hasDotSeg(res.Path) || !(endpoint.URL.Path == "" || endpoint.URL.Path == "/")
 //@   ensures !(endpoint.PreservePath && endpoint.URL.Path != "" && endpoint.URL.Path != "/") && (endpoint.URL.Path == "" || endpoint.URL.Path == "/") ==> !encDotSeg(res.Path)
 //@   ensures !(endpoint.PreservePath && endpoint.URL.Path != "" && endpoint.URL.Path != "/") && (endpoint.URL.Path == "" || endpoint.URL.Path == "/") && !hasDotSeg(stripped(r.URL.Path, proxyPrefix)) && !encDotSeg(stripped(r.URL.Path, proxyPrefix)) && stripped(r.URL.Path, proxyPrefix) != "" ==> res.Path == stripped(r.URL.Path, proxyPrefix)
-//@   ensures (endpoint.URL.Path == "" || endpoint.URL.Path == "/") && stripped(r.URL.Path, proxyPrefix) == "" ==> res.Path == "/"
 //@   uses clean_nodots slash_nodots
